@@ -20,7 +20,7 @@ def step(coll, k, what):
 
 UNIT = Unit(
     name="U-CAPT",
-    properties=["C08", "C03"],
+    properties=["C08", "C03", "C02"],
     rules=["attrs", ("strip", "common_defs::"), "let_chain", "entry_or_insert_with", "iter_any", "for_index", "box_as_ref"],
     describe="lift::collect_captured: the capture set gains exactly the free variables of the expression (w.r.t. the locally bound names) "
              "that the defining scope binds, each with the scope's type; existing captures and the bound-name stack are left as they were — "
